@@ -39,6 +39,7 @@ pub fn prop() -> Prop {
         independent: &["harness Lagrange interpolation and commitment evaluation"],
         ref_sample: |_| 0,
         required_probes: &["degree_ge_3", "degree_ge_6", "tamper_value", "tamper_identifier_other", "tamper_identifier_fresh", "tamper_commitment_0", "tamper_commitment_last", "tamper_truncate", "tamper_extend", "order_independent", "params_refused", "all_subsets_reconstruct", "split_known_key"],
+        prepare: None,
     }
 }
 
